@@ -14,6 +14,15 @@ pub fn is_tag<'a, 'input: 'a>(node: impl Borrow<Node<'a, 'input>>, tag_name: &st
     node.has_tag_name(tag_name) && node.tag_name().namespace() == standard_namespace
 }
 
+/// Returns the text of an element: the concatenation of all its text children.
+/// Comments or processing instructions inside an element split its text into several nodes.
+/// Returns None if the element has no text at all.
+pub fn text(node: &Node) -> Option<String> {
+    let mut parts = node.children().filter(|n| n.is_text()).peekable();
+    parts.peek()?;
+    Some(parts.filter_map(|n| n.text()).collect())
+}
+
 pub fn opt_string(parent_node: &Node, tag_name: &str) -> Result<Option<String>> {
     if let Some(tag) = parent_node.children().find(|n| is_tag(n, tag_name)) {
         let expected_type = "String";
@@ -26,8 +35,7 @@ pub fn opt_string(parent_node: &Node, tag_name: &str) -> Result<Option<String>> 
         } else {
             Error::invalid(format!("XML tag '{tag_name}' has no 'type' attribute"))?
         }
-        let text = tag.text().unwrap_or("");
-        Ok(Some(text.to_string()))
+        Ok(Some(text(&tag).unwrap_or_default()))
     } else {
         Ok(None)
     }
@@ -53,7 +61,7 @@ fn opt_num<T: FromStr + Sync + Send>(
         } else {
             Error::invalid(format!("XML tag '{tag_name}' has no 'type' attribute"))?
         }
-        let text = tag.text().unwrap_or("0");
+        let text = text(&tag).unwrap_or_else(|| "0".to_string());
         if let Ok(parsed) = text.parse::<T>() {
             Ok(Some(parsed))
         } else {
